@@ -86,6 +86,8 @@ type Thread struct {
 	ID      int
 	// Quiescing: the thread waits in zzvrf.Quiesce for the others to block or finish
 	Quiescing bool
+	// NoPreempt: the thread was just pre-empted at its current instruction; it executes it next time
+	NoPreempt bool
 }
 
 type BlockInfo struct {
@@ -104,6 +106,9 @@ type State struct {
 	Known   map[string]*Term
 	Facts   *FactSet
 	NextObj int   // per-state allocation counter (see newObj)
+	// Preempt: remaining pre-emptions the scheduler may insert before unbuffered channel sends and
+	// mutex acquisitions (context-bounded schedule exploration, enabled by zzvrf.Preemptions)
+	Preempt int
 	Tags    []int // case-split tags (zzvrf.Fork/Join): states with different tags never merge
 	key     []int
 	dead    bool
@@ -179,7 +184,7 @@ func NewExec(prog *ssa.Program, cfg Config) *Exec {
 		cfg.MaxDepth = 64
 	}
 	if cfg.MaxStates == 0 {
-		cfg.MaxStates = 200000
+		cfg.MaxStates = 5000000
 	}
 	x := &Exec{Prog: prog, tb: NewTB(), cfg: cfg, infos: map[*ssa.Function]*FnInfo{},
 		inputByName: map[string]*Input{}, globals: map[*ssa.Global]int{}, errGlobal: map[*ssa.Global]bool{},
@@ -450,7 +455,7 @@ func (t *Thread) clone() *Thread {
 }
 
 func (s *State) clone() *State {
-	n := &State{G: s.G, Cur: s.Cur, Step: s.Step, Facts: s.Facts.clone(), NextObj: s.NextObj}
+	n := &State{G: s.G, Cur: s.Cur, Step: s.Step, Facts: s.Facts.clone(), NextObj: s.NextObj, Preempt: s.Preempt}
 	n.PC = append([]*Term(nil), s.PC...)
 	n.Tags = append([]int(nil), s.Tags...)
 	n.Heap = make(map[int]Value, len(s.Heap)+8)
@@ -482,7 +487,7 @@ func (x *Exec) posKey(s *State) []int {
 		return s.key
 	}
 	k := make([]int, 0, 64)
-	k = append(k, s.Step, s.Cur)
+	k = append(k, s.Step, s.Cur, s.Preempt)
 	for _, t := range s.Threads {
 		k = append(k, -7) // thread separator
 		st := 0
@@ -648,7 +653,7 @@ func (x *Exec) merge(a, b *State) *State {
 		cb = tb.And(cb, t)
 	}
 	c := ca // condition selecting a's values
-	out := &State{Cur: a.Cur, Step: a.Step, Facts: intersectFacts(a.Facts, b.Facts), Tags: a.Tags, NextObj: a.NextObj}
+	out := &State{Cur: a.Cur, Step: a.Step, Facts: intersectFacts(a.Facts, b.Facts), Tags: a.Tags, NextObj: a.NextObj, Preempt: a.Preempt}
 	if b.NextObj > out.NextObj {
 		out.NextObj = b.NextObj
 	}
@@ -940,8 +945,12 @@ func (x *Exec) drain() {
 	for len(x.queue) > 0 {
 		grp := x.popGroup()
 		s := grp[0]
+		nb := x.tb.NTerms
 		for _, o := range grp[1:] {
 			s = x.merge(s, o)
+		}
+		if len(grp) > 1 && x.TermProf != nil && os.Getenv("GOSMT_PROFTERMS") != "" {
+			x.TermProf["MERGE at "+x.posOf(s)] += x.tb.NTerms - nb
 		}
 		s.key = nil
 		if x.cfg.Trace || (x.cfg.Progress > 0 && steps%x.cfg.Progress == 0) {
